@@ -355,7 +355,45 @@ class FGen(seqgen.Gen):
         return evs
 
 
-def random_sequence(rng, system=None, n_blocks=None, use_block_cache=True, **kw):
+def replay_with_history(rng, events, system, use_block_cache=True):
+    """the same blocks in the same PLAY order, stored through another history of public calls: add_block, set_block
+    with an index beyond the end (ids skip ahead), set_block with a smaller unused index (play order != id order),
+    and, in between, a write of the unfinished sequence (leaves a stale TotalDuration definition behind)"""
+    import os
+    import tempfile
+    import pypulseq as pp
+    seq = pp.Sequence(system, use_block_cache=use_block_cache)
+    used = set()
+    n_ooo = 0
+    mid = rng.randint(1, len(events)) if rng.random() < 0.4 else None
+    try:
+        for k, evs in enumerate(events):
+            nxt = seq.next_free_block_ID
+            holes = [i for i in range(1, nxt) if i not in used]
+            u = rng.random()
+            if u < 0.45:
+                seq.add_block(*evs)
+                idx = nxt
+            elif u < 0.75 or not holes:
+                idx = nxt + rng.randint(0, 3)
+                seq.set_block(idx, *evs)
+            else:
+                idx = rng.choice(holes)
+                seq.set_block(idx, *evs)
+                n_ooo += 1
+            used.add(idx)
+            if mid is not None and k + 1 == mid and k + 1 < len(events):
+                with tempfile.TemporaryDirectory(prefix='pvmid') as d:
+                    seq.write(os.path.join(d, 'mid.seq'), create_signature=rng.random() < 0.5, check_timing=False)
+                seq._gen_midwrite = True
+    except Exception:  # noqa: BLE001
+        return None
+    ids = [int(b) for b in seq.block_events]
+    seq._gen_history = {'ids': ids, 'out_of_order': ids != sorted(ids), 'noncontiguous': ids != list(range(1, len(ids) + 1))}
+    return seq
+
+
+def random_sequence(rng, system=None, n_blocks=None, use_block_cache=True, history=False, **kw):
     """returns (seq, number of blocks stored, writer system)"""
     import pypulseq as pp
     system = system or rand_system(rng)
@@ -364,6 +402,7 @@ def random_sequence(rng, system=None, n_blocks=None, use_block_cache=True, **kw)
     n = n_blocks or rng.randint(1, 16)
     stored = 0
     tries = 0
+    events = []
     while stored < n and tries < 4 * n:
         tries += 1
         final = stored == n - 1
@@ -372,6 +411,7 @@ def random_sequence(rng, system=None, n_blocks=None, use_block_cache=True, **kw)
             evs = g.block(final=final)
             seq.add_block(*evs)
             stored += 1
+            events.append(evs)
         except Exception:   # a constructor or the continuity check refused: draw again
             g.last = saved
             continue
@@ -379,10 +419,16 @@ def random_sequence(rng, system=None, n_blocks=None, use_block_cache=True, **kw)
         try:
             pairs = {ch: (g.last[ch], 0.0) for ch in 'xyz' if g.last[ch] != 0}
             D = g.conn_duration(pairs.values())
-            seq.add_block(*[g.conn(ch, f, l, D) for ch, (f, l) in pairs.items()])
+            evs = [g.conn(ch, f, l, D) for ch, (f, l) in pairs.items()]
+            seq.add_block(*evs)
             stored += 1
+            events.append(evs)
         except Exception:
             pass
+    if history and stored and rng.random() < 0.6:
+        seq2 = replay_with_history(rng, events, system, use_block_cache)
+        if seq2 is not None:
+            seq = seq2
     random_definitions(rng, seq)
     seq._gen_reused = getattr(g, 'n_reused', 0)
     seq._gen_twins = getattr(g, 'n_twins', 0)
